@@ -65,6 +65,50 @@ func gocqlGoroutines() []string {
 	return out
 }
 
+// c17openConns describes the connections still open (for witnesses).
+func c17openConns(cl *fakenode.Cluster) []string {
+	var out []string
+	for _, sc := range cl.AllConns() {
+		if sc.Driver.Closed() {
+			continue
+		}
+		var ops []string
+		for _, rq := range sc.AllRequests() {
+			ops = append(ops, fmt.Sprintf("%#x", rq.Header.Op))
+		}
+		out = append(out, fmt.Sprintf("node %s conn #%d control=%v requests=%v outstanding=%d", sc.Node.IP, sc.Index, sc.IsControl, ops, sc.Outstanding()))
+	}
+	return out
+}
+
+// c17awaitClosed waits until nothing the driver dialled is open and no goroutine runs driver
+// code any more. A leftover only counts when it is a stable state: still there after at
+// least 5 s AND 400 polling steps (so that a starved process does not run out the clock in a
+// few steps), and then unchanged for another 3 s.
+func c17awaitClosed(c *runner.Ctx, cl *fakenode.Cluster) (open []string, leaked []string) {
+	start := time.Now()
+	for steps := 0; ; steps++ {
+		open, leaked = c17openConns(cl), gocqlGoroutines()
+		if len(open) == 0 && len(leaked) == 0 {
+			return nil, nil
+		}
+		if steps >= 400 && time.Since(start) > 5*time.Second {
+			break
+		}
+		time.Sleep(5 * time.Millisecond)
+	}
+	for k := 0; k < 30; k++ {
+		time.Sleep(100 * time.Millisecond)
+		o2, l2 := c17openConns(cl), gocqlGoroutines()
+		if len(o2) < len(open) || len(l2) < len(leaked) {
+			// still winding down: slow, not stuck
+			c.Add("slow_wind_down_after_close", 1)
+			return c17awaitClosed(c, cl)
+		}
+	}
+	return open, leaked
+}
+
 func topFrameOf(blk string) string {
 	for _, l := range strings.Split(blk, "\n") {
 		if strings.HasPrefix(l, "github.com/gocql/gocql") {
@@ -79,13 +123,13 @@ func topFrameOf(blk string) string {
 }
 
 type c17sampler struct {
-	sess  *gocql.Session
-	max   map[string]int
-	size  int
-	mu    sync.Mutex
-	n     int64
-	stop  chan struct{}
-	done  chan struct{}
+	sess *gocql.Session
+	max  map[string]int
+	size int
+	mu   sync.Mutex
+	n    int64
+	stop chan struct{}
+	done chan struct{}
 }
 
 func (s *c17sampler) sample() {
@@ -331,7 +375,9 @@ func c17case(c *runner.Ctx, i int) {
 				}
 			}
 		case 2:
-			go func() { gocql.VerifHandleNodeEvents(sess, []gocql.VerifNodeEvent{{Topology: true, Change: "NEW_NODE", Host: []byte{10, 9, 8, 7}, Port: 9042}}) }()
+			go func() {
+				gocql.VerifHandleNodeEvents(sess, []gocql.VerifNodeEvent{{Topology: true, Change: "NEW_NODE", Host: []byte{10, 9, 8, 7}, Port: 9042}})
+			}()
 		case 3:
 			rr := rand.New(rand.NewSource(r.Int63()))
 			dropSome(rr, 60)
@@ -443,38 +489,26 @@ func c17case(c *runner.Ctx, i int) {
 	if err := sess.Query("LIST after").Exec(); !errors.Is(err, gocql.ErrSessionClosed) {
 		fail("query-after-close", fmt.Sprintf("a query after Close returned %v, want ErrSessionClosed", err))
 	}
-	deadline := time.Now().Add(5 * time.Second)
-	for {
-		open := 0
-		for _, sc := range cl.AllConns() {
-			if !sc.Driver.Closed() {
-				open++
-			}
+	{
+		openL, leaked := c17awaitClosed(c, cl)
+		if len(openL) > 0 {
+			wit["open_connections"] = openL
+			wit["driver_goroutines_left"] = len(leaked)
+			fail("connection-open-after-close", fmt.Sprintf("%d connections the driver dialled are still open 8 s after Session.Close returned", len(openL)))
 		}
-		leaked := gocqlGoroutines()
-		if open == 0 && len(leaked) == 0 {
-			break
-		}
-		if time.Now().After(deadline) {
-			if open > 0 {
-				fail("connection-open-after-close", fmt.Sprintf("%d connections the driver dialled are still open 5 s after Session.Close returned", open))
+		if len(leaked) > 0 {
+			tops := map[string]int{}
+			for _, b := range leaked {
+				tops[topFrameOf(b)]++
 			}
-			if len(leaked) > 0 {
-				tops := map[string]int{}
-				for _, b := range leaked {
-					tops[topFrameOf(b)]++
-				}
-				var ks []string
-				for k := range tops {
-					ks = append(ks, k)
-				}
-				sort.Strings(ks)
-				w2 := map[string]interface{}{"scenario": key, "goroutines": leaked[:minInt(len(leaked), 6)]}
-				c.Violation("C17:goroutine-leak:"+strings.Join(ks, "+"), fmt.Sprintf("%d goroutines are still running driver code 5 s after Session.Close returned (%v)", len(leaked), tops), w2)
+			var ks []string
+			for k := range tops {
+				ks = append(ks, k)
 			}
-			break
+			sort.Strings(ks)
+			w2 := map[string]interface{}{"scenario": key, "goroutines": leaked[:minInt(len(leaked), 6)]}
+			c.Violation("C17:goroutine-leak:"+strings.Join(ks, "+"), fmt.Sprintf("%d goroutines are still running driver code 8 s after Session.Close returned (%v)", len(leaked), tops), w2)
 		}
-		time.Sleep(5 * time.Millisecond)
 	}
 	for k := range outcomes {
 		c.SetAdd("outcomes", k)
@@ -582,36 +616,24 @@ func c17closeReconnect(c *runner.Ctx, i int) {
 	c.Add("closes_checked", 1)
 	c.Eval(runner.H("closereconnect", i, mode, ctl.Signature()), true)
 	wit := map[string]interface{}{"mode": mode}
-	deadline := time.Now().Add(5 * time.Second)
-	for {
-		open := 0
-		for _, sc := range cl.AllConns() {
-			if !sc.Driver.Closed() {
-				open++
-			}
+	{
+		openL, leaked := c17awaitClosed(c, cl)
+		if len(openL) > 0 {
+			wit["open_connections"] = openL
+			wit["driver_goroutines_left"] = len(leaked)
+			c.Violation("C17:connection-open-after-close", fmt.Sprintf("%d connections the driver dialled are still open 8 s after Session.Close returned", len(openL)), wit)
 		}
-		leaked := gocqlGoroutines()
-		if open == 0 && len(leaked) == 0 {
-			break
-		}
-		if time.Now().After(deadline) {
-			if open > 0 {
-				c.Violation("C17:connection-open-after-close", fmt.Sprintf("%d connections the driver dialled are still open 5 s after Session.Close returned", open), wit)
+		if len(leaked) > 0 {
+			tops := map[string]int{}
+			for _, b := range leaked {
+				tops[topFrameOf(b)]++
 			}
-			if len(leaked) > 0 {
-				tops := map[string]int{}
-				for _, b := range leaked {
-					tops[topFrameOf(b)]++
-				}
-				var ks []string
-				for k := range tops {
-					ks = append(ks, k)
-				}
-				sort.Strings(ks)
-				c.Violation("C17:goroutine-leak:"+strings.Join(ks, "+"), fmt.Sprintf("%d goroutines are still running driver code 5 s after Session.Close returned (%v)", len(leaked), tops), map[string]interface{}{"mode": mode, "goroutines": leaked[:minInt(len(leaked), 4)]})
+			var ks []string
+			for k := range tops {
+				ks = append(ks, k)
 			}
-			break
+			sort.Strings(ks)
+			c.Violation("C17:goroutine-leak:"+strings.Join(ks, "+"), fmt.Sprintf("%d goroutines are still running driver code 8 s after Session.Close returned (%v)", len(leaked), tops), map[string]interface{}{"mode": mode, "goroutines": leaked[:minInt(len(leaked), 4)]})
 		}
-		time.Sleep(5 * time.Millisecond)
 	}
 }
